@@ -7,7 +7,7 @@ LEAN_MODULE = "HexProps.C01"
 SCOPE = []
 ORACLE_RULE = "C01: see hx/oracles/framework.py (c01_case): random indicator spec (26 kinds + Amorph wrappers) x stream style x timeframe/fill x schedule on the real code"
 ASSUMPTIONS = ["TZ=UTC for this check"]
-PARTIAL = "proved for every leaf indicator class (HLA, TR, OBV, SMA, EMA, RMA, WMA, VWMA, ROC, Counter, HL, Aroon, Donchian, Amorph x 20 functions; inputs = candle attributes) on the base timeframe (unconditional, equality in PyM) and on a collapsing timeframe with or without gap filling (whenever the live run returns); proved as 'the live run returns => the batch run returns the same candles' for the composite trees VWAP, STDEV, RSI, ATR, KC, STDEVTHRES, BBANDS, Supertrend (C01_trees, any timeframe / fill); MACD, STOCH, HMA, TSI, ADX (indicator-type managed children) and indicator-valued inputs are stated as C01_FULL and covered by correspondence + search only"
+PARTIAL = "proved for ALL 27 shipped indicator classes (CoveredTreeX: the 14 leaf classes incl. Amorph x 20 functions, and every composite - VWAP, STDEV, RSI, ATR, KC, STDEVTHRES, BBANDS, Supertrend, MACD, HMA, STOCH, TSI, ADX) with candle-attribute inputs: leaf classes on the base timeframe unconditionally (equality in PyM); all classes on the base or a collapsing timeframe with or without gap filling as 'the live run returns => the batch run returns the same candles' (C01_trees). Not proved (C01_FULL): inputs that are other indicators' readings, period 1 for HMA/STOCH (index-0 fallback to a child's full calculate()), names that are not ordinary keys; those are covered by correspondence + search only"
 
 
 def oracle(ctx):
